@@ -65,6 +65,44 @@ def link_recovery(rng: Rng, oracle):
     return l.sess, oracle(tr, c, r), c, {"plan": plan_text(plan), "K": k}
 
 
+class DropEnum:
+    """systematic part of the C03 exploration: for one configuration at a time, EVERY schedule of one or
+    two dropped PDUs over the first `span` positions of both directions (retransmissions included), in
+    both NAK modes.  Called like a generator function of a plan; draws a new configuration when the
+    schedules of the current one are exhausted."""
+
+    def __init__(self, oracle, kinds=("drop",)):
+        self.oracle, self.kinds, self.queue = oracle, kinds, []
+
+    def refill(self, rng: Rng):
+        c = recov_cfg(rng, 2)
+        seg = max(1, c.seg_len)
+        tiles = rng.choice((2, 3, 3, 4))
+        n = min(96, (tiles - 1) * seg + rng.choice((1, seg)))
+        if seg > 32:
+            n = rng.choice((33, 60))
+        from link import rand_bytes
+        c.data = rand_bytes(rng, n)
+        n_sd = 2 + (n + seg - 1) // seg + 3
+        n_ds = 5
+        pos = [("SD", i) for i in range(n_sd)] + [("DS", i) for i in range(n_ds)]
+        imm = rng.randrange(2)
+        plans = [{a: ("drop",)} for a in pos]
+        plans += [{a: ("drop",), b: ("drop",)} for i, a in enumerate(pos) for b in pos[i + 1:]]
+        for pl in plans:
+            cc = Cfg(**{**c.__dict__, "imm": imm})
+            self.queue.append((cc, pl))
+
+    def __call__(self, rng: Rng):
+        if not self.queue:
+            self.refill(rng)
+        c, plan = self.queue.pop()
+        l = Link(c, plan=plan, rng=rng, pacing=Pacing())
+        r = l.run(max_rounds=600, max_ticks=120)
+        tr = Trace.of_session(l.sess)
+        return l.sess, self.oracle(tr, c, r), c, {"plan": plan_text(plan), "K": len(plan)}
+
+
 def dest_any(rng: Rng, oracle, **kw):
     c = rand_cfg(rng)
     if not kw.get("grid_only"):
@@ -149,10 +187,15 @@ PLANS = {
     "C01": [("link-faulty", 900, lambda rng: link_faulty(rng, lambda tr, c, r: o.o_C01(tr, c))),
             ("dest-honest-sender", 500, lambda rng: dest_honest(rng))],
     "C02": [("link-fault-free", 1500, lambda rng: link_clean(rng, o.o_C02))],
-    "C03": [("link-recovery", 900, lambda rng: link_recovery(rng, o.o_C03))],
+    "C03": [("link-recovery", 700, lambda rng: link_recovery(rng, o.o_C03)),
+            ("link-all-single-and-double-drops", 900, DropEnum(o.o_C03))],
     "C04": [("source-silent-peer", 700, sc.c04_source), ("dest-silent-peer", 900, sc.c04_dest)],
     "C13": [("dest-eof-overtakes-data", 1200, sc.c13_dest), ("source-closure-check-timer", 400, sc.c13_source)],
-    "C05": [("dest-arbitrary", 900, lambda rng: dest_any(rng, ot(o.o_C05), fault_p=0.3)),
+    "C05": [("dest-arbitrary", 700, lambda rng: dest_any(rng, ot(o.o_C05), fault_p=0.3)),
+            # the same histories on the library's own NativeFilestore (sandbox), several transactions to
+            # the same destination path on one handler: what is on disk is what the write model says
+            ("dest-arbitrary-native", 250, lambda rng: dest_any(rng, ot(o.o_C05), fault_p=0.3, fs_kind="native",
+                                                                n_tx=rng.choice((2, 3)))),
             ("link-faulty", 400, lambda rng: link_faulty(rng, lambda tr, c, r: o.o_C05(tr)))],
     "C06": [("dest-grid-acked", 1500, lambda rng: dest_grid_acked(rng, oc(o.o_C06)))],
     "C07": [("source-undisturbed", 1200, lambda rng: source_any(
@@ -166,8 +209,10 @@ PLANS = {
     "C12": [("link-cancel", 900, lambda rng: link_faulty(rng, lambda tr, c, r: o.o_C12(tr, c), kmax=1, cancel=True)),
             ("dest-cancel", 500, lambda rng: dest_any(rng, oc(o.o_C12))),
             ("source-cancel", 500, lambda rng: source_any(rng, oc(o.o_C12)))],
-    "C14": [("dest-fault-tables", 900, lambda rng: dest_any(rng, ot(o.o_C14), fault_p=1.0)),
-            ("source-fault-tables", 600, lambda rng: source_any(rng, ot(o.o_C14), fault_p=1.0)),
+    "C14": [("dest-fault-tables", 900, lambda rng: dest_any(rng, ot(o.o_C14), fault_p=1.0, reconf=0.6,
+                                                            n_tx=rng.choice((1, 2, 3)))),
+            ("source-fault-tables", 700, lambda rng: source_any(rng, ot(o.o_C14), fault_p=1.0, reconf=0.6,
+                                                                n_tx=rng.choice((1, 2, 3)))),
             ("link-fault-tables", 500, lambda rng: link_faulty(
                 rng, lambda tr, c, r: o.o_C14(tr), kmax=3, cancel=True,
                 faults_d=g.rand_fault_table(rng, p=1.0),
@@ -240,10 +285,33 @@ def replay_known_findings(ctx: Ctx, pid: str):
             sess.close()
 
 
+def replay_regressions(ctx: Ctx, pid: str):
+    """corpus/regress/<pid>/*.json: histories that once exposed a defect (repaired by a `fix:` commit)
+    or a seeded change; they run first, through the same correspondence and oracle as generated ones"""
+    import json
+    from common import VERIF
+    from suites import replay_session, cfg_of
+    d = VERIF / "corpus" / "regress" / pid
+    if not d.is_dir():
+        return
+    r = Runner(ctx, "regression-corpus")
+    for f in sorted(d.glob("*.json")):
+        obj = json.load(open(f))
+        sess = replay_session(obj)
+        try:
+            tr = Trace.of_session(sess)
+            fails = replay_oracle(pid)(tr, cfg_of(obj), obj)
+            r.add(sess, fails, cfg_of(obj), {"corpus": str(f.relative_to(VERIF))})
+        finally:
+            sess.close()
+    r.flush()
+
+
 def check(ctx: Ctx, pid: str, level: str, rule: str, assumptions: list[str], plans=None,
           extra_explore=None) -> int:
     lean = lean_stage(pid)
     replay_known_findings(ctx, pid)
+    replay_regressions(ctx, pid)
     scale = THOROUGH_SCALE if ctx.thorough else 1
     run_plan(ctx, pid, scale, plans)
     if extra_explore is not None:
